@@ -1,4 +1,5 @@
 import MidoProofs.SrcTie.Vlq
+import MidoProofs.SrcTie.Writer
 import MidoProofs.SrcTie.Tracks
 #print axioms Mido.src_vlq_loop1
 #print axioms Mido.src_vlq_hi_loop
@@ -7,3 +8,9 @@ import MidoProofs.SrcTie.Tracks
 #print axioms Mido.src_read_vlq_loop
 #print axioms Mido.src_read_variable_int
 #print axioms Mido.src_fix_end_of_track
+#print axioms Mido.src_fix_gen
+#print axioms Mido.src_write_chunk
+#print axioms Mido.src_wt_check
+#print axioms Mido.src_wt_loop
+#print axioms Mido.fixEot_toW
+#print axioms Mido.src_write_track
